@@ -307,6 +307,8 @@ func exprS5(emit func(stratum string, e *E)) {
 		for _, b := range maps {
 			emit("S5", call("augmentMap", a, b))
 			emit("S5", vr0(call("augmentMap", a, b)))
+			// the keys of an augmented map are the keys of both maps (their number does not depend on order)
+			emit("S5", call("length", call("keys", call("augmentMap", a, b))))
 		}
 		emit("S5", call("keys", a))
 		emit("S5", call("length", call("keys", a)))
